@@ -230,6 +230,11 @@ example :
 fact; comparing fewer fields (e.g. only the host) would leave a re-registered broker's group at its old address -/
 theorem update_compares_whole_broker : updateCompare = .whole := by decide
 
+/-- the source applies the delete set before the add set (a changed broker is in both and must end up with its new
+group), and classifies ids exactly as the model's explicit sets do (`addSet_eq`, `delSet_eq` over the regenerated
+`updateNewEntry` / `updateOldEntry`) -/
+theorem update_deletes_before_adding : updateApplyOrder = [.del, .add] := by decide
+
 /-- the source sends over a broker's own connection group exactly for ids ≥ 0 (0 is a valid broker id) -/
 theorem broker_conn_guard (id : Int) : usesBrokerConn id = decide (0 ≤ id) := by
   unfold usesBrokerConn; congr 1
@@ -243,7 +248,7 @@ theorem update_follows (s : PoolState) (m : MResponse) (h : ConnsInv s) :
     (update s (some m) false).layout = makeLayout (normalize m) ∧
     (update s (some m) false).err = false ∧
     ConnsInv (update s (some m) false) :=
-  ⟨rfl, rfl, rfl, Lemmas.Routing.update_connsInv update_compares_whole_broker s (some m) false h⟩
+  ⟨rfl, rfl, rfl, Lemmas.Routing.update_connsInv update_compares_whole_broker update_deletes_before_adding s (some m) false h⟩
 
 /-- a failed refresh never replaces a known cluster view -/
 theorem update_error_keeps_known (s : PoolState) (m : Option MResponse) (h : s.metadata.isSome = true) :
@@ -263,7 +268,7 @@ theorem conns_invariant (hist : List (Option MResponse × Bool)) :
   | nil => intro s hs; exact hs
   | cons e es ih =>
     intro s hs
-    exact ih _ (Lemmas.Routing.update_connsInv update_compares_whole_broker s e.1 e.2 hs)
+    exact ih _ (Lemmas.Routing.update_connsInv update_compares_whole_broker update_deletes_before_adding s e.1 e.2 hs)
 
 /-- after a leader moved (or a broker re-registered at another host/port) and the refresh delivered `m`, a
 produce/fetch request for partitions that `m` says are led by broker `b` is sent to `b` at the address `m` gives -/
@@ -343,7 +348,7 @@ theorem refresh_loop_survives_faults (es : List DEvent) (s s' : DState)
 theorem step_connsInv (guards : List ExitGuard) (s s' : DState) (e : DEvent)
     (hs : step guards s e = some s') (h : ConnsInv s.pool) : ConnsInv s'.pool := by
   cases e <;> simp only [step] at hs <;> split at hs <;> (try cases hs) <;>
-    first | exact h | exact Lemmas.Routing.update_connsInv update_compares_whole_broker _ _ _ h
+    first | exact h | exact Lemmas.Routing.update_connsInv update_compares_whole_broker update_deletes_before_adding _ _ _ h
 
 theorem run_connsInv (guards : List ExitGuard) (es : List DEvent) (s s' : DState)
     (hrun : run guards s es = some s') (h : ConnsInv s.pool) : ConnsInv s'.pool := by
